@@ -32,6 +32,11 @@ theorem close_says_goodbye_first : async_close_unregisters_all = true ∧ async_
     sync_close_unregisters_all = true ∧ sync_close_goodbyes_before_done = true := by
   simp [async_close_unregisters_all, async_close_goodbyes_before_done, sync_close_unregisters_all, sync_close_goodbyes_before_done]
 
+/-- D27: `async_unregister_service` builds the goodbye packet itself, when it is called; the task re-sends that packet and no longer
+reads the `ServiceInfo` object -/
+theorem unregister_builds_goodbye : unregister_builds_goodbye_at_call = true := by
+  simp [unregister_builds_goodbye_at_call]
+
 /-- `async_send` sends nothing once `done` -/
 theorem send_is_noop_eq (d : Bool) : send_is_noop d = d := by simp [send_is_noop]
 
